@@ -281,6 +281,24 @@ func (e *OpEngine) RunLossChecks() {
 				return mk("P", good), mk("T", append(append([]sym.Poly{}, good...), sym.PAtom("z")))
 			}, nil},
 		)
+		// rank deviations by unit dimensions (a column of predictions [n,1] against targets [n]): accepted, they
+		// would broadcast to [n,n] silently
+		one := sym.PInt(1)
+		withUnit := func(trailing bool) []sym.Poly {
+			if trailing {
+				return append(append([]sym.Poly{}, good...), one)
+			}
+			return append([]sym.Poly{one}, good...)
+		}
+		for _, trailing := range []bool{true, false} {
+			trailing := trailing
+			side := map[bool]string{true: "trailing", false: "leading"}[trailing]
+			bads = append(bads,
+				bad{"prediction with a " + side + " unit dimension", func() (interp.Value, interp.Value) { return mk("P", withUnit(trailing)), mk("T", good) }, nil},
+				bad{"target with a " + side + " unit dimension", func() (interp.Value, interp.Value) { return mk("P", good), mk("T", withUnit(trailing)) }, nil},
+				bad{"both with a " + side + " unit dimension", func() (interp.Value, interp.Value) { return mk("P", withUnit(trailing)), mk("T", withUnit(trailing)) }, nil},
+			)
+		}
 		for k := 0; k < rank; k++ {
 			k := k
 			bads = append(bads, bad{fmt.Sprintf("size mismatch at dim %d", k), func() (interp.Value, interp.Value) {
